@@ -28,6 +28,38 @@ package main
 //     `[]T(nil)`) and S is `record.Owners`, `record.Owners[:]` or `record.Owners[:n]` / `[:n:n]` with n =
 //     `len(record.Owners)` (written out, or a variable defined once as that).  Appending to an empty slice
 //     that nobody else holds never shares S's array and yields exactly S's elements.  Any other bound is refused.
+//     E may also be a variable: `e := <new empty slice>` defined once and mentioned nowhere but in this append, or the
+//     result variable itself in `owners := <new empty slice>; owners = append(owners, S...); return owners, …` (four
+//     mentions, no more) — in both nobody else can hold E between its creation and the append.
+//   - "the answering return, wherever it stands".  The guard of QueryName may be written either way round
+//     (`if !exists || … { return nil, …, err }; …; return owners, …` or, by De Morgan, `if exists && … { …; return
+//     owners, … }; return nil, …, err`).  Every `return` of the method with three results is read: one whose first
+//     result is the identifier `nil` hands out no slice and says nothing about aliasing; every other one must be a
+//     fresh copy in one of the forms above (queryCopies = true only if all are) or `record.Owners` itself (false).
+//     Control flow (`if`, tagless `switch`, `else`) around the returns is not interpreted at all by this fact — the
+//     lock discipline does not depend on it, and what the branches compute is tied by L2.
+//   - "record handed to a pure helper".  A package-level function (no receiver) called by plain name from a listed
+//     function with an argument rooted at a record of the map (`record`, `record.Owners`, `n.names[k]`) runs inside
+//     the caller's critical section on that record: `hasOwner(record.Owners, owner)`, `appendOwner(record, owner)`.
+//     The callee must be what the discipline takes it for: no `go` statement, no mention of `.mu`, never used as a
+//     function value (else: error).  The caller WRITES if the callee may write through that parameter: an assignment
+//     or ++/-- whose target is rooted at the parameter, `delete`, `append`/`copy` with it as first argument, its
+//     address taken, a function literal that mentions it together with any assignment, or the parameter handed on to
+//     another package function that may (two levels) or to any call outside the read-only list below.  Read-only
+//     calls: len, cap, the methods Equal/String/After/Before/IsZero, slices.Contains/ContainsFunc/Index/IndexFunc/Equal,
+//     bytes.Equal, fmt.*.  Over-approximating "writes" is the safe direction: under RLock it breaks the discipline.
+//     The same holds for a method of the package declared on another type and called on a record (`record.touch()`):
+//     its receiver is the parameter.  Methods from other packages on a record's fields (net.IP, time.Time) only read.
+//     A constructor that receives no record (`newNameRecord(name, …)`) needs nothing: storing its result is the
+//     caller's `n.names[k] = …`, a write as before.
+//   - "the map handed to a library function".  `maps.DeleteFunc(n.names, …)` is the delete loop of CleanExpiredNames
+//     in one call.  A call that receives `<x>.names` itself is a WRITE unless it is one of the read-only ones (len,
+//     maps.Keys/Values/All/Clone/Equal/EqualFunc, fmt.*): maps.DeleteFunc, maps.Copy, maps.Insert, `clear` and
+//     anything unknown count as writing (before, such a call was not seen as a write at all — a miss, not only a
+//     refused shape; over-approximating is the safe direction, see above).
+//   - "no lock taken inside".  A listed method that holds the mutex and calls, on its own receiver, another listed
+//     method that takes it (`n.QueryName(…)` inside RegisterName) would deadlock (sync.RWMutex is not re-entrant):
+//     refused with an error rather than described by facts that cannot express it.
 
 import (
 	"fmt"
@@ -221,9 +253,80 @@ func nbtnsLocks(repo string) (string, any, error) {
 							unlocks++
 						}
 					}
+					// "the map handed to a library function"
+					for _, a := range x.Args {
+						if _, isMap := isSel(a, "names"); !isMap {
+							continue
+						}
+						switch f := x.Fun.(type) {
+						case *ast.Ident:
+							if f.Name == "clear" {
+								m.WritesNames = true
+							}
+						case *ast.SelectorExpr:
+							q := ""
+							if pk, ok := f.X.(*ast.Ident); ok {
+								q = pk.Name + "." + f.Sel.Name
+							}
+							switch {
+							case q == "maps.Keys", q == "maps.Values", q == "maps.All", q == "maps.Clone", q == "maps.Equal", q == "maps.EqualFunc", strings.HasPrefix(q, "fmt."):
+							default:
+								m.WritesNames = true
+							}
+						default:
+							m.WritesNames = true
+						}
+					}
 				}
 				return true
 			})
+			// "record handed to a pure helper"
+			{
+				var herr error
+				ast.Inspect(fd.Body, func(n ast.Node) bool {
+					c, ok := n.(*ast.CallExpr)
+					if !ok || herr != nil {
+						return true
+					}
+					if sel, isSel := c.Fun.(*ast.SelectorExpr); isSel && (recIdents[rootIdent(sel.X)] || fromNames(sel.X)) {
+						// a method of the package called on a record (`record.touch()`): the receiver is the parameter
+						if callee := nbtnsMethod(decls, sel.Sel.Name); callee != nil {
+							w, err := nbtnsParamWritten(decls, callee, -1, 0)
+							if err != nil {
+								herr = fmt.Errorf("%s: %s calls %s on a record of the map: %v", fn, fd.Name.Name, sel.Sel.Name, err)
+								return true
+							}
+							if w {
+								m.WritesNames = true
+							}
+						}
+					}
+					id, ok := c.Fun.(*ast.Ident)
+					if !ok {
+						return true
+					}
+					callee := nbtnsPkgFunc(decls, id.Name)
+					if callee == nil {
+						return true
+					}
+					for ai, a := range c.Args {
+						if recIdents[rootIdent(a)] || fromNames(a) {
+							w, err := nbtnsParamWritten(decls, callee, ai, 0)
+							if err != nil {
+								herr = fmt.Errorf("%s: %s hands a record of the map to %s: %v", fn, fd.Name.Name, id.Name, err)
+								return true
+							}
+							if w {
+								m.WritesNames = true
+							}
+						}
+					}
+					return true
+				})
+				if herr != nil {
+					return "", nil, herr
+				}
+			}
 			if m.IsMethod && recv != "" && len(fd.Body.List) >= 2 {
 				if es, ok := fd.Body.List[0].(*ast.ExprStmt); ok {
 					switch muCall(es.X, recv) {
@@ -243,77 +346,67 @@ func nbtnsLocks(repo string) (string, any, error) {
 			m.NoEarlyUnlock = (m.DefersUnlock && unlocks == 1) || (!m.DefersUnlock && unlocks == 0)
 			methods = append(methods, m)
 
-			// result shape of QueryName
+			// result shape of QueryName ("the answering return, wherever it stands": see the file comment)
 			if m.IsMethod && m.Name == "QueryName" {
-				var last *ast.ReturnStmt
-				for _, st := range fd.Body.List {
-					if r, ok := st.(*ast.ReturnStmt); ok {
-						last = r
+				var rets []*ast.ReturnStmt
+				ast.Inspect(fd.Body, func(n ast.Node) bool {
+					switch x := n.(type) {
+					case *ast.FuncLit:
+						return false
+					case *ast.ReturnStmt:
+						rets = append(rets, x)
+					}
+					return true
+				})
+				answers := 0
+				for _, r := range rets {
+					if len(r.Results) != 3 {
+						return "", nil, fmt.Errorf("%s: QueryName: a return without three results (named results are not understood)", fn)
+					}
+					if id, ok := r.Results[0].(*ast.Ident); ok && id.Name == "nil" {
+						continue // hands out no slice at all
+					}
+					k, err := nbtnsOwnersResult(r.Results[0], fd.Body)
+					if err != nil {
+						return "", nil, fmt.Errorf("%s: QueryName: %v", fn, err)
+					}
+					answers++
+					if k == 0 || queryCopies < 0 {
+						queryCopies = k
 					}
 				}
-				if last == nil || len(last.Results) != 3 {
-					return "", nil, fmt.Errorf("%s: QueryName: final `return owners, type, nil` not found", fn)
+				if answers == 0 {
+					return "", nil, fmt.Errorf("%s: QueryName: no `return owners, type, nil` found", fn)
 				}
-				switch res := last.Results[0].(type) {
-				case *ast.CallExpr:
-					if !nbtnsFreshCopy(res, fd.Body) {
-						return "", nil, fmt.Errorf("%s: QueryName: result call is not append(<new empty slice>, record.Owners...)", fn)
-					}
-					queryCopies = 1
-				case *ast.SelectorExpr:
-					if res.Sel.Name == "Owners" {
-						queryCopies = 0
-					} else {
-						return "", nil, fmt.Errorf("%s: QueryName returns an unknown selector %s", fn, res.Sel.Name)
-					}
-				case *ast.Ident:
-					made, copied := false, false
-					ast.Inspect(fd.Body, func(n ast.Node) bool {
-						switch x := n.(type) {
-						case *ast.AssignStmt:
-							if len(x.Lhs) == 1 && len(x.Rhs) == 1 {
-								if id, ok := x.Lhs[0].(*ast.Ident); ok && id.Name == res.Name {
-									if c, ok := x.Rhs[0].(*ast.CallExpr); ok {
-										if f, ok := c.Fun.(*ast.Ident); ok && f.Name == "make" && len(c.Args) >= 2 {
-											if l, ok := c.Args[1].(*ast.CallExpr); ok {
-												if lf, ok := l.Fun.(*ast.Ident); ok && lf.Name == "len" && len(l.Args) == 1 {
-													if _, ok := isSel(l.Args[0], "Owners"); ok {
-														made = true
-													}
-												}
-											}
-										}
-									}
-									if c, ok := x.Rhs[0].(*ast.CallExpr); ok && !made && nbtnsFreshCopy(c, fd.Body) {
-										made, copied = true, true
-									}
-									if !made {
-										// any other definition of the result (e.g. `owners := record.Owners`)
-										if _, ok := isSel(x.Rhs[0], "Owners"); ok {
-											queryCopies = 0
-										}
-									}
-								}
-							}
-						case *ast.CallExpr:
-							if f, ok := x.Fun.(*ast.Ident); ok && f.Name == "copy" && len(x.Args) == 2 {
-								if id, ok := x.Args[0].(*ast.Ident); ok && id.Name == res.Name {
-									if _, ok := isSel(x.Args[1], "Owners"); ok {
-										copied = true
-									}
-								}
-							}
+			}
+		}
+	}
+	// "no lock taken inside"
+	{
+		takes := map[string]bool{}
+		for _, m := range methods {
+			if m.IsMethod && m.LocksFirst {
+				takes[m.Name] = true
+			}
+		}
+		for _, dcl := range decls {
+			recv := nbtnsIsServerMethod(dcl.fd)
+			if recv == "" || !takes[dcl.fd.Name.Name] {
+				continue
+			}
+			var rerr error
+			ast.Inspect(dcl.fd.Body, func(n ast.Node) bool {
+				if c, ok := n.(*ast.CallExpr); ok {
+					if sel, ok := c.Fun.(*ast.SelectorExpr); ok && takes[sel.Sel.Name] {
+						if id, ok := sel.X.(*ast.Ident); ok && id.Name == recv {
+							rerr = fmt.Errorf("%s: %s calls %s.%s while holding the mutex that method takes (sync.RWMutex is not re-entrant)", dcl.file, dcl.fd.Name.Name, recv, sel.Sel.Name)
 						}
-						return true
-					})
-					if made && copied {
-						queryCopies = 1
-					} else if queryCopies != 0 {
-						return "", nil, fmt.Errorf("%s: QueryName: result %q is neither make(len(record.Owners))+copy nor record.Owners", fn, res.Name)
 					}
-				default:
-					return "", nil, fmt.Errorf("%s: QueryName: unknown result expression", fn)
 				}
+				return true
+			})
+			if rerr != nil {
+				return "", nil, rerr
 			}
 		}
 	}
@@ -559,31 +652,35 @@ func nbtnsHelpers(decls []nbtnsDecl) map[string]*nbtnsHelper {
 
 // nbtnsFreshCopy: `append(E, S...)` with E a new empty slice and S all of <x>.Owners (see the file comment)
 func nbtnsFreshCopy(c *ast.CallExpr, body *ast.BlockStmt) bool {
+	return nbtnsAppendAll(c, body, func(x ast.Expr) bool {
+		if nbtnsEmptyNew(x) {
+			return true
+		}
+		// a variable defined once (`e := <new empty slice>`) whose only other occurrence is this argument
+		id, ok := x.(*ast.Ident)
+		if !ok || nbtnsCountIdent(body, id.Name) != 2 {
+			return false
+		}
+		found := false
+		ast.Inspect(body, func(n ast.Node) bool {
+			if a, ok := n.(*ast.AssignStmt); ok && a.Tok == token.DEFINE && len(a.Lhs) == 1 && len(a.Rhs) == 1 {
+				if l, ok := a.Lhs[0].(*ast.Ident); ok && l.Name == id.Name && nbtnsEmptyNew(a.Rhs[0]) {
+					found = true
+				}
+			}
+			return true
+		})
+		return found
+	})
+}
+
+// nbtnsAppendAll: `append(E, S...)` with emptyOK(E) and S all of <x>.Owners
+func nbtnsAppendAll(c *ast.CallExpr, body *ast.BlockStmt, emptyOK func(ast.Expr) bool) bool {
 	f, ok := c.Fun.(*ast.Ident)
 	if !ok || f.Name != "append" || len(c.Args) != 2 || !c.Ellipsis.IsValid() {
 		return false
 	}
-	empty := false
-	switch e := c.Args[0].(type) {
-	case *ast.CallExpr:
-		if id, ok := e.Fun.(*ast.Ident); ok && id.Name == "make" && len(e.Args) >= 2 {
-			if _, isSlice := e.Args[0].(*ast.ArrayType); isSlice {
-				if bl, ok := e.Args[1].(*ast.BasicLit); ok && bl.Value == "0" {
-					empty = true
-				}
-			}
-		}
-		if at, ok := e.Fun.(*ast.ArrayType); ok && at.Len == nil && len(e.Args) == 1 {
-			if id, ok := e.Args[0].(*ast.Ident); ok && id.Name == "nil" {
-				empty = true
-			}
-		}
-	case *ast.CompositeLit:
-		if at, ok := e.Type.(*ast.ArrayType); ok && at.Len == nil && len(e.Elts) == 0 {
-			empty = true
-		}
-	}
-	if !empty {
+	if !emptyOK(c.Args[0]) {
 		return false
 	}
 	isLenOwners := func(e ast.Expr) bool {
@@ -644,4 +741,395 @@ func nbtnsFreshCopy(c *ast.CallExpr, body *ast.BlockStmt) bool {
 		return full(s.High) && full(s.Max)
 	}
 	return false
+}
+
+// nbtnsOwnersResult classifies the first result of an answering return of QueryName: 1 = a fresh copy of
+// <x>.Owners, 0 = <x>.Owners itself (directly or through a variable), error = anything else.
+func nbtnsOwnersResult(e ast.Expr, body *ast.BlockStmt) (int, error) {
+	switch res := e.(type) {
+	case *ast.CallExpr:
+		if !nbtnsFreshCopy(res, body) {
+			return 0, fmt.Errorf("result call is not append(<new empty slice>, record.Owners...)")
+		}
+		return 1, nil
+	case *ast.SelectorExpr:
+		if res.Sel.Name == "Owners" {
+			return 0, nil
+		}
+		return 0, fmt.Errorf("returns an unknown selector %s", res.Sel.Name)
+	case *ast.Ident:
+		// every assignment to the variable, in source order
+		var defs []*ast.AssignStmt
+		copied, internal, other := false, false, false
+		ast.Inspect(body, func(n ast.Node) bool {
+			switch x := n.(type) {
+			case *ast.AssignStmt:
+				for _, l := range x.Lhs {
+					if id, ok := l.(*ast.Ident); ok && id.Name == res.Name {
+						if len(x.Lhs) == 1 && len(x.Rhs) == 1 {
+							defs = append(defs, x)
+						} else {
+							other = true
+						}
+					}
+				}
+			case *ast.CallExpr:
+				if f, ok := x.Fun.(*ast.Ident); ok && f.Name == "copy" && len(x.Args) == 2 {
+					if id, ok := x.Args[0].(*ast.Ident); ok && id.Name == res.Name {
+						if _, ok := isSel(x.Args[1], "Owners"); ok {
+							copied = true
+						}
+					}
+				}
+			}
+			return true
+		})
+		if other || len(defs) == 0 {
+			return 0, fmt.Errorf("result %q is defined in a way that is not understood", res.Name)
+		}
+		isMakeLen := func(e ast.Expr) bool { // make([]T, len(<x>.Owners)[, …])
+			c, ok := e.(*ast.CallExpr)
+			if !ok {
+				return false
+			}
+			f, ok := c.Fun.(*ast.Ident)
+			if !ok || f.Name != "make" || len(c.Args) < 2 {
+				return false
+			}
+			l, ok := c.Args[1].(*ast.CallExpr)
+			if !ok || len(l.Args) != 1 {
+				return false
+			}
+			lf, ok := l.Fun.(*ast.Ident)
+			if !ok || lf.Name != "len" {
+				return false
+			}
+			_, ok = isSel(l.Args[0], "Owners")
+			return ok
+		}
+		for _, d := range defs {
+			if _, ok := isSel(d.Rhs[0], "Owners"); ok {
+				internal = true
+			}
+		}
+		switch {
+		case internal:
+			return 0, nil
+		case len(defs) == 1 && isMakeLen(defs[0].Rhs[0]) && copied:
+			return 1, nil
+		case len(defs) == 1:
+			if c, ok := defs[0].Rhs[0].(*ast.CallExpr); ok && nbtnsFreshCopy(c, body) {
+				return 1, nil
+			}
+		case len(defs) == 2 && defs[0].Tok == token.DEFINE && defs[1].Tok == token.ASSIGN && nbtnsEmptyNew(defs[0].Rhs[0]):
+			// owners := <new empty slice>; owners = append(owners, record.Owners...); return owners, …
+			// (the variable occurs nowhere else: definition, both sides of the append, the return)
+			if c, ok := defs[1].Rhs[0].(*ast.CallExpr); ok && nbtnsCountIdent(body, res.Name) == 4 && nbtnsAppendAll(c, body, func(e ast.Expr) bool {
+				id, ok := e.(*ast.Ident)
+				return ok && id.Name == res.Name
+			}) {
+				return 1, nil
+			}
+		}
+		return 0, fmt.Errorf("result %q is neither a fresh copy of record.Owners (make(len)+copy, append to a new empty slice) nor record.Owners", res.Name)
+	}
+	return 0, fmt.Errorf("unknown result expression")
+}
+
+func nbtnsCountIdent(n ast.Node, name string) int {
+	c := 0
+	ast.Inspect(n, func(x ast.Node) bool {
+		if id, ok := x.(*ast.Ident); ok && id.Name == name {
+			c++
+		}
+		return true
+	})
+	return c
+}
+
+// nbtnsEmptyNew: an expression whose value is a new slice of length 0 that nobody else holds:
+// make([]T, 0[, n]), []T{}, []T(nil)
+func nbtnsEmptyNew(x ast.Expr) bool {
+	switch e := x.(type) {
+	case *ast.CallExpr:
+		if id, ok := e.Fun.(*ast.Ident); ok && id.Name == "make" && len(e.Args) >= 2 {
+			if at, isSlice := e.Args[0].(*ast.ArrayType); isSlice && at.Len == nil {
+				if bl, ok := e.Args[1].(*ast.BasicLit); ok && bl.Value == "0" {
+					return true
+				}
+			}
+		}
+		if at, ok := e.Fun.(*ast.ArrayType); ok && at.Len == nil && len(e.Args) == 1 {
+			if id, ok := e.Args[0].(*ast.Ident); ok && id.Name == "nil" {
+				return true
+			}
+		}
+	case *ast.CompositeLit:
+		if at, ok := e.Type.(*ast.ArrayType); ok && at.Len == nil && len(e.Elts) == 0 {
+			return true
+		}
+	}
+	return false
+}
+
+// nbtnsPkgFunc: the package-level function (no receiver) of that name, if there is exactly one declaration of the name
+func nbtnsPkgFunc(decls []nbtnsDecl, name string) *ast.FuncDecl {
+	var out *ast.FuncDecl
+	n := 0
+	for _, d := range decls {
+		if d.fd.Name.Name == name {
+			n++
+			if d.fd.Recv == nil {
+				out = d.fd
+			}
+		}
+	}
+	if n != 1 {
+		return nil
+	}
+	return out
+}
+
+func calledName(c *ast.CallExpr) string {
+	switch f := c.Fun.(type) {
+	case *ast.Ident:
+		return f.Name
+	case *ast.SelectorExpr:
+		return f.Sel.Name
+	}
+	return ""
+}
+
+// nbtnsMethod: the method (any receiver type other than the server's) of that name, if the name is declared once
+func nbtnsMethod(decls []nbtnsDecl, name string) *ast.FuncDecl {
+	var out *ast.FuncDecl
+	n := 0
+	for _, d := range decls {
+		if d.fd.Name.Name == name {
+			n++
+			if d.fd.Recv != nil && nbtnsIsServerMethod(d.fd) == "" {
+				out = d.fd
+			}
+		}
+	}
+	if n != 1 {
+		return nil
+	}
+	return out
+}
+
+// nbtnsParamWritten: may the package function fd write through its parameter number idx?  (normalisation "record
+// handed to a pure helper" of the file comment).  Errors: the callee is not a plain helper of a critical section.
+func nbtnsParamWritten(decls []nbtnsDecl, fd *ast.FuncDecl, idx, depth int) (bool, error) {
+	name := fd.Name.Name
+	var params []string
+	for _, f := range fd.Type.Params.List {
+		if _, variadic := f.Type.(*ast.Ellipsis); variadic {
+			return false, fmt.Errorf("%s is variadic", name)
+		}
+		for _, n := range f.Names {
+			params = append(params, n.Name)
+		}
+	}
+	p := ""
+	switch {
+	case idx == -1: // the receiver
+		if fd.Recv == nil || len(fd.Recv.List) != 1 || len(fd.Recv.List[0].Names) != 1 {
+			return false, fmt.Errorf("%s has no named receiver", name)
+		}
+		p = fd.Recv.List[0].Names[0].Name
+	case idx >= len(params):
+		return false, fmt.Errorf("%s has no named parameter %d", name, idx)
+	default:
+		p = params[idx]
+	}
+	// the helper itself: no goroutine, no mutex; never a function value anywhere in the package
+	var err error
+	ast.Inspect(fd.Body, func(n ast.Node) bool {
+		switch x := n.(type) {
+		case *ast.GoStmt:
+			err = fmt.Errorf("%s starts a goroutine", name)
+		case *ast.SelectorExpr:
+			if x.Sel.Name == "mu" {
+				err = fmt.Errorf("%s touches a mutex", name)
+			}
+		}
+		return true
+	})
+	if err != nil {
+		return false, err
+	}
+	for _, d := range decls {
+		calls, uses := 0, 0
+		ast.Inspect(d.fd.Body, func(n ast.Node) bool {
+			switch x := n.(type) {
+			case *ast.CallExpr:
+				if id, ok := x.Fun.(*ast.Ident); ok && id.Name == name {
+					calls++
+				}
+				if sel, ok := x.Fun.(*ast.SelectorExpr); ok && sel.Sel.Name == name && idx == -1 {
+					calls++
+				}
+			case *ast.Ident:
+				if x.Name == name {
+					uses++
+				}
+			case *ast.GoStmt:
+				if calledName(x.Call) == name {
+					err = fmt.Errorf("%s is started as a goroutine in %s", name, d.fd.Name.Name)
+				}
+			case *ast.DeferStmt:
+				if calledName(x.Call) == name {
+					err = fmt.Errorf("%s is deferred in %s", name, d.fd.Name.Name)
+				}
+			}
+			return true
+		})
+		if uses != calls {
+			err = fmt.Errorf("%s is used as a function value (or shadowed) in %s", name, d.fd.Name.Name)
+		}
+	}
+	if err != nil {
+		return false, err
+	}
+	root := func(e ast.Expr) string {
+		for {
+			switch x := e.(type) {
+			case *ast.SelectorExpr:
+				e = x.X
+			case *ast.IndexExpr:
+				e = x.X
+			case *ast.SliceExpr:
+				e = x.X
+			case *ast.ParenExpr:
+				e = x.X
+			case *ast.StarExpr:
+				e = x.X
+			case *ast.Ident:
+				return x.Name
+			default:
+				return ""
+			}
+		}
+	}
+	// local aliases of the parameter (`o := p.Owners`, `for _, r := range p`) are the parameter
+	alias := map[string]bool{p: true}
+	for changed := true; changed; {
+		changed = false
+		ast.Inspect(fd.Body, func(n ast.Node) bool {
+			switch x := n.(type) {
+			case *ast.AssignStmt:
+				if len(x.Lhs) == len(x.Rhs) {
+					for i, l := range x.Lhs {
+						if id, ok := l.(*ast.Ident); ok && alias[root(x.Rhs[i])] && !alias[id.Name] {
+							alias[id.Name], changed = true, true
+						}
+					}
+				}
+			case *ast.RangeStmt:
+				if alias[root(x.X)] && x.Value != nil {
+					if id, ok := x.Value.(*ast.Ident); ok && !alias[id.Name] {
+						alias[id.Name], changed = true, true
+					}
+				}
+			}
+			return true
+		})
+	}
+	readOnlyMethod := map[string]bool{"Equal": true, "String": true, "After": true, "Before": true, "IsZero": true}
+	readOnlyPkg := map[string]bool{"slices.Contains": true, "slices.ContainsFunc": true, "slices.Index": true, "slices.IndexFunc": true,
+		"slices.Equal": true, "bytes.Equal": true}
+	writes := false
+	ast.Inspect(fd.Body, func(n ast.Node) bool {
+		switch x := n.(type) {
+		case *ast.AssignStmt:
+			for _, l := range x.Lhs {
+				if _, isIdent := l.(*ast.Ident); !isIdent && alias[root(l)] {
+					writes = true
+				}
+			}
+		case *ast.IncDecStmt:
+			if _, isIdent := x.X.(*ast.Ident); !isIdent && alias[root(x.X)] {
+				writes = true
+			}
+		case *ast.UnaryExpr:
+			if x.Op == token.AND && alias[root(x.X)] {
+				writes = true
+			}
+		case *ast.FuncLit:
+			mentions, assigns := false, false
+			ast.Inspect(x.Body, func(m ast.Node) bool {
+				switch y := m.(type) {
+				case *ast.Ident:
+					if alias[y.Name] {
+						mentions = true
+					}
+				case *ast.AssignStmt, *ast.IncDecStmt:
+					assigns = true
+				}
+				return true
+			})
+			if mentions && assigns {
+				writes = true
+			}
+		case *ast.CallExpr:
+			passes := -1
+			for ai, a := range x.Args {
+				if alias[root(a)] {
+					passes = ai
+				}
+			}
+			recvIsParam := false
+			if sel, ok := x.Fun.(*ast.SelectorExpr); ok && alias[root(sel.X)] {
+				recvIsParam = true
+				if !readOnlyMethod[sel.Sel.Name] {
+					writes = true
+				}
+			}
+			if passes < 0 || recvIsParam {
+				return true
+			}
+			switch f := x.Fun.(type) {
+			case *ast.Ident:
+				switch f.Name {
+				case "len", "cap":
+				case "append", "copy":
+					if alias[root(x.Args[0])] {
+						writes = true
+					}
+				case "delete":
+					writes = true
+				default:
+					callee := nbtnsPkgFunc(decls, f.Name)
+					if callee == nil || depth >= 2 {
+						writes = true
+						return true
+					}
+					for ai, a := range x.Args {
+						if alias[root(a)] {
+							w, e := nbtnsParamWritten(decls, callee, ai, depth+1)
+							if e != nil {
+								err = e
+							}
+							if w {
+								writes = true
+							}
+						}
+					}
+				}
+			case *ast.SelectorExpr:
+				q := ""
+				if pk, ok := f.X.(*ast.Ident); ok {
+					q = pk.Name + "." + f.Sel.Name
+				}
+				if !(readOnlyPkg[q] || strings.HasPrefix(q, "fmt.") || readOnlyMethod[f.Sel.Name]) {
+					writes = true
+				}
+			default:
+				writes = true
+			}
+		}
+		return true
+	})
+	return writes, err
 }
